@@ -284,6 +284,33 @@ TRANSPARENT_ATTRS = {"values"}
 INT_LIKE = {"builtins.int", "builtins.float", "numpy.int64", "numpy.float64", "numpy.int32", "numpy.float32"}
 
 
+# positional parameter names of external callables whose arguments the code may pass either way (trusted table)
+EXT_SIGS = {
+    "pandas.Series": ("data", "index", "dtype", "name"),
+    "pandas.DataFrame": ("data", "index", "columns", "dtype"),
+    "numpy.concatenate": ("arrays", "axis"),
+    "numpy.linspace": ("start", "stop", "num"),
+    "numpy.around": ("a", "decimals"),
+    "numpy.round": ("a", "decimals"),
+    "numpy.clip": ("a", "a_min", "a_max"),
+    "numpy.quantile": ("a", "q", "axis"),
+    "numpy.nanquantile": ("a", "q", "axis"),
+    "numpy.searchsorted": ("a", "v", "side"),
+    "numpy.amin": ("a", "axis"),
+    "numpy.amax": ("a", "axis"),
+    "numpy.zeros": ("shape", "dtype"),
+    "numpy.ones": ("shape", "dtype"),
+    "numpy.full": ("shape", "fill_value", "dtype"),
+    "numpy.linalg.lstsq": ("a", "b", "rcond"),
+    "sklearn.base.clone": ("estimator", "safe"),
+    "sklearn.utils.validation.check_array": ("array",),
+    "sklearn.utils.validation.check_consistent_length": (),
+    "scipy.optimize.linprog": ("c", "A_ub", "b_ub", "A_eq", "b_eq", "bounds", "method"),
+    "builtins.range": (),
+    "builtins.slice": (),
+}
+
+
 class Canon:
     def __init__(self, extra_func_aliases=None, transparent_T=False, opaque=None):
         self.memo: dict[int, T] = {}
@@ -517,6 +544,23 @@ class Canon:
         ckw = tuple(sorted(((k, self.canon(v)) for k, v in kwargs), key=lambda kv: kv[0]))
         name = None
         recv = None
+        if f.op == "global" and ckw:
+            # externals with a known signature: positional arguments beyond the first are given their parameter names, so
+            # f(x, i) and f(x, index=i) get one normal form (keywords are sorted)
+            sig = EXT_SIGS.get(f.args[0])
+            if sig is not None or f.args[0] in EXT_SIGS:
+                pass
+        if f.op == "global":
+            sig = EXT_SIGS.get(f.args[0])
+            if sig and not cargs and sig[0] in dict(ckw):
+                kwd = dict(ckw)
+                cargs = [kwd.pop(sig[0])]
+                ckw = tuple(sorted(kwd.items(), key=lambda kv: kv[0]))
+            if sig and len(cargs) > 1:
+                extra = cargs[1:]
+                if len(extra) <= len(sig) - 1 and not any(sig[i + 1] in dict(ckw) for i in range(len(extra))):
+                    ckw = tuple(sorted(list(ckw) + [(sig[i + 1], v) for i, v in enumerate(extra)], key=lambda kv: kv[0]))
+                    cargs = cargs[:1]
         if f.op == "global":
             name = self.fa.get(f.args[0])
             if name is None:
